@@ -207,3 +207,22 @@ func TestLeak(t *testing.T) {
 		}
 	})
 }
+
+func TestLocate(t *testing.T) {
+	files, _ := filepath.Glob(os.Getenv("C05_PROBE"))
+	sort.Strings(files)
+	for _, f := range files {
+		b, _ := os.ReadFile(f)
+		src := string(b)
+		raw := rawTokens(src)
+		from, to := locateParseFailure(src, raw)
+		fmt.Println("===", f, from, to)
+		lines := strings.Split(src, "\n")
+		for i := from; i <= to && i <= from+6 && i > 0; i++ {
+			fmt.Printf("  %4d| %s\n", i, lines[i-1])
+		}
+		if from > 0 {
+			fmt.Println("  class:", classifyLines(raw, from, to, "x"))
+		}
+	}
+}
